@@ -216,6 +216,23 @@ type Evaluator struct {
 	onRS func(v, e T)
 	// decimal observer applications seen (for bridge-axiom instantiation)
 	onDec func(lo, hi T)
+	// structure of real-valued terms (for distributing rs over + - ite)
+	lin  map[string][3]string // term -> (op, a, b)
+	ites map[string][3]T
+	reals map[string]T
+}
+
+func (ev *Evaluator) noteLin(res T, op string, a, b T) {
+	if res.Sort.K != SReal {
+		return
+	}
+	if ev.lin == nil {
+		ev.lin = map[string][3]string{}
+		ev.reals = map[string]T{}
+	}
+	ev.lin[res.S] = [3]string{op, a.S, b.S}
+	ev.reals[a.S] = a
+	ev.reals[b.S] = b
 }
 
 var decObservers = map[string]bool{"special": true, "isnan": true, "isinf": true, "sign": true, "coef": true, "bexp": true, "form2": true}
@@ -396,12 +413,16 @@ func (ev *Evaluator) Eval(e Expr, env *Env) Val {
 			if isBV {
 				return Leaf{T: ev.th.SpecAdd(a, b)}
 			}
-			return Leaf{T: mkAdd(a, b)}
+			r := mkAdd(a, b)
+			ev.noteLin(r, "+", realOfInt(a), realOfInt(b))
+			return Leaf{T: r}
 		case "-":
 			if isBV {
 				return Leaf{T: ev.th.SpecSub(a, b)}
 			}
-			return Leaf{T: mkSub(a, b)}
+			r := mkSub(a, b)
+			ev.noteLin(r, "-", realOfInt(a), realOfInt(b))
+			return Leaf{T: r}
 		case "*":
 			if isBV {
 				return Leaf{T: ev.th.SpecMul(a, b)}
@@ -587,7 +608,16 @@ func (ev *Evaluator) call(x *ECall, env *Env) Val {
 		return Leaf{T: realOfInt(ev.specOf(ev.Eval(x.Args[0], env)))}
 	case "ite":
 		c := ev.boolOf(ev.Eval(x.Args[0], env))
-		return ev.iteVal(c, ev.Eval(x.Args[1], env), ev.Eval(x.Args[2], env))
+		r := ev.iteVal(c, ev.Eval(x.Args[1], env), ev.Eval(x.Args[2], env))
+		if l, ok := r.(Leaf); ok && l.T.Sort.K == SReal {
+			a := ev.specOf(ev.Eval(x.Args[1], env))
+			b := ev.specOf(ev.Eval(x.Args[2], env))
+			if ev.ites == nil {
+				ev.ites = map[string][3]T{}
+			}
+			ev.ites[l.T.S] = [3]T{c, realOfInt(a), realOfInt(b)}
+		}
+		return r
 	case "len":
 		v := ev.Eval(x.Args[0], env)
 		switch s := v.(type) {
@@ -657,8 +687,24 @@ func (ev *Evaluator) call(x *ECall, env *Env) Val {
 func (ev *Evaluator) rsApply(v, e T) T {
 	v = realOfInt(v)
 	if ev.vc != nil {
-		v = ev.vc.define("rsv", v)
 		e = ev.vc.define("rse", e)
+	}
+	if l, ok := ev.lin[v.S]; ok {
+		a := ev.rsApply(ev.reals[l[1]], e)
+		b := ev.rsApply(ev.reals[l[2]], e)
+		if l[0] == "+" {
+			return mkAdd(a, b)
+		}
+		return mkSub(a, b)
+	}
+	if it, ok := ev.ites[v.S]; ok {
+		return mkIte(it[0], ev.rsApply(it[1], e), ev.rsApply(it[2], e))
+	}
+	if v.S == "0.0" {
+		return v
+	}
+	if ev.vc != nil {
+		v = ev.vc.define("rsv", v)
 	}
 	if ev.onRS != nil {
 		ev.onRS(v, e)
